@@ -163,6 +163,8 @@ def run_seed(args: dict, sandbox: str) -> dict:
         "config": {"generate_all_tags": r.random() < 0.3},
         # an idempotent custom post-hook (a real subprocess run in the project directory) in a third of the histories
         "post_hooks": r.choice([[], [], ["touch hook_ran.txt"]]),
+        # a custom template directory (beside the output location, inside the watched parent) in a fifth of the histories
+        "custom_templates": r.random() < 0.2,
     }
     res = run_spec({"spec": spec}, sandbox)
     if not res.get("violations"):
@@ -196,6 +198,12 @@ class World:
         self._w(os.path.join(self.cwd, "sim-api-client-old", "keep.txt"), b"keep\n")
         self._w(os.path.join(self.cwd, "sim_api_client.bak"), b"bak\n")
         self._w(os.path.join(self.P, "models", "not-yours.py"), b"# parent-level models dir\n")
+        self.templates_dir: str | None = None
+        if spec.get("custom_templates"):
+            self.templates_dir = os.path.join(self.P, "my-templates")
+            self._w(os.path.join(self.templates_dir, "README.md.jinja"), b"# custom readme for {{ project_name }}\n")
+            self._w(os.path.join(self.templates_dir, ".gitignore.jinja"), b"custom-ignored/\n")
+        self.gen_counter = 0
         self.explicit = spec["out_mode"] in ("explicit", "explicit-relative")
         # a relative --output-path is resolved against the working directory (P/work): ../out/ == P/out
         self.out_arg = None if spec["out_mode"] != "explicit-relative" else "../out/"
@@ -242,6 +250,8 @@ class World:
         a = ["generate", "--path", self.docpaths[op["doc"]], "--config", self.cfg, "--meta", op["meta"]]
         if op.get("overwrite"):
             a.append("--overwrite")
+        if self.templates_dir:
+            a += ["--custom-template-path", self.templates_dir]
         target = out if out is not None else ((self.out_arg or self.O) if self.explicit else None)
         if target is not None:
             a += ["--output-path", target]
@@ -361,7 +371,14 @@ class World:
         seam = fsseam.FsSeam(self.P, crash_at=crash_at, torn=torn, error_at=error_at,
                              error_errno=getattr(errno, err) if err else errno.ENOSPC)
         os.chdir(self.cwd)
-        res = self.genrun.run_cli(self.argv(op), around=lambda: seam)
+        # every generate command is a separate PROCESS in reality: give each its own process id
+        self.gen_counter += 1
+        real_getpid = os.getpid
+        os.getpid = lambda n=self.gen_counter: 40_000 + 17 * n  # type: ignore[assignment]
+        try:
+            res = self.genrun.run_cli(self.argv(op), around=lambda: seam)
+        finally:
+            os.getpid = real_getpid  # type: ignore[assignment]
         os.chdir(self.sandbox)
         self.log.append(f"op {label} {op['op']} doc={op['doc']} meta={op['meta']} overwrite={op.get('overwrite')} crash_at={crash_at} torn={torn} error_at={error_at}:{err} -> exit={res['exit_code']} exc={res['exception']} fired={seam.fired}")
         self.log.extend(seam.lines())
@@ -539,6 +556,9 @@ class World:
 
 
 def _locus(rel: str) -> str:
+    import re as _re
+
+    rel = _re.sub(r"\d+", "N", rel)  # process ids, counters: not part of a violation class
     parts = rel.split(os.sep)
     for marker in ("models", "api"):
         if marker in parts:
@@ -645,6 +665,10 @@ def shrink_candidates(spec: dict) -> list[dict]:
     if spec.get("post_hooks"):
         s = copy.deepcopy(spec)
         s["post_hooks"] = []
+        out.append(s)
+    if spec.get("custom_templates"):
+        s = copy.deepcopy(spec)
+        s["custom_templates"] = False
         out.append(s)
     # shrink documents
     for k in sorted(spec["docs"]):
